@@ -5,3 +5,5 @@ CONSTANTS
   Tier = "thorough"
 INVARIANT LawIdent
 INVARIANT LawRoundTripStatus
+INVARIANT LawOverride
+INVARIANT LawMatrixSame
